@@ -245,6 +245,23 @@ def run(rep, tier="quick", srcdir=None, only=None):
         C03.rule_TB6(rep, prog, q)
     if want("C03-MP9"):
         C03.rule_MP9(rep, prog, q)
+    if want("C03-MP11"):
+        C03.rule_MP11(rep, prog, q)
+    # "... after a dispatch_semaphore_wait is satisfied by a signal ..., or after dispatch_once returns": the obligations on those primitives are
+    # the sibling properties' rules (shared with C08 / C09 / C07)
+    if want("C08-MP3"):
+        from . import C08
+        C08.rule_MP3(rep, prog)
+    if want("C09-TR1") or want("C09-MP2"):
+        from . import C09
+        k9 = consts.get(["DLOCK_ONCE_DONE", "DLOCK_ONCE_UNLOCKED", "DLOCK_WAITERS_BIT"], srcdir=srcdir)
+        if want("C09-TR1"):
+            C09.rule_TR1(rep, prog, ex, k9)
+        if want("C09-MP2"):
+            C09.rule_MP2(rep, prog, k9)
+    if want("C07-OD5"):
+        from . import C07
+        C07.rule_OD5(rep, prog, None)
     if want("C05-FK"):
         from .sync_common import rule_futex_key
         rule_futex_key(rep, "C05", prog)
